@@ -39,6 +39,13 @@ fn main() {
             let failed = match case["engine"].as_str().unwrap_or("") {
                 "enum" => e2::replay(&case),
                 "table" => props::replay_table(&case),
+                "collections" => harness::props3::replay_collections(&case),
+                "lazy" => harness::props3::replay_lazy(&case),
+                "orders" => harness::props3::replay_orders(&case),
+                "merges" => harness::props3::replay_merges(&case),
+                "cli" => harness::e6::replay(&case),
+                "bisim" => harness::props2::replay_bisim(&case),
+                "roundtrip" => harness::props2::replay_roundtrip(&case),
                 e => {
                     eprintln!("unknown engine {e}");
                     std::process::exit(2);
